@@ -1448,7 +1448,8 @@ class ModelBuilder:
                 elif key == "effort":
                     # Set for all scenarios (no prefix means apply to all)
                     for scIdx in range(obj.project.scenarioCount()):
-                        obj[("effort", scIdx)] = value
+                        if not self._scenario_overridden(obj, "effort", scIdx):
+                            obj[("effort", scIdx)] = value
                 elif key == "depends":
                     # Store for later resolution (after all tasks created)
                     self._pending_depends.append((obj, value))  # type: ignore[arg-type]
@@ -1463,11 +1464,13 @@ class ModelBuilder:
                 elif key == "start":
                     # Set for all scenarios
                     for scIdx in range(obj.project.scenarioCount()):
-                        obj[("start", scIdx)] = value
+                        if not self._scenario_overridden(obj, "start", scIdx):
+                            obj[("start", scIdx)] = value
                 elif key == "end":
                     # Set for all scenarios
                     for scIdx in range(obj.project.scenarioCount()):
-                        obj[("end", scIdx)] = value
+                        if not self._scenario_overridden(obj, "end", scIdx):
+                            obj[("end", scIdx)] = value
                 elif key == "milestone":
                     # Set for all scenarios
                     for scIdx in range(obj.project.scenarioCount()):
@@ -1675,6 +1678,21 @@ class ModelBuilder:
                 else:
                     with contextlib.suppress(ValueError, KeyError, AttributeError):
                         obj[key] = value
+
+    def _scenario_overridden(self, obj: Any, attr_key: str, scenario_idx: int) -> bool:
+        """True if a '<scenario>:<attr>' line seen earlier in the same body already decides
+        the value for this scenario (its own or the nearest enclosing scenario's): a plain
+        attribute written further down must not take it back."""
+        explicit = getattr(obj, "_explicit_scenario_attrs", None)
+        if not explicit:
+            return False
+        scenario = obj.project.scenario(scenario_idx)
+        while scenario is not None:
+            idx = self._get_scenario_index(obj.project, scenario.id)
+            if idx is not None and (attr_key, idx) in explicit:
+                return True
+            scenario = scenario.parent
+        return False
 
     def _get_scenario_index(self, project: Project, scenario_id: str) -> Optional[int]:
         """Get the index of a scenario by its ID."""
